@@ -215,14 +215,14 @@ def _locate(t):
     tol = z3.RealVal("1/1000000")
     far = z3.Or(*[z3.And(*[dist(i, j) > tol for j in range(D)]) for i in range(N)])
     raised = z3.Or(*[p.cond() for p in paths if p.kind == "raise"]) if any(p.kind == "raise" for p in paths) else z3.BoolVal(False)
-    t.prove("raises_ValueError_exactly_when_some_query_is_farther_than_1e-6_from_every_design", raised == far)
+    t.prove("raises_ValueError_exactly_when_some_query_is_farther_than_1e-6_from_every_design", raised == far, timeout_ms=90000)
 
     def goal(p):
         if p.kind != "return":
             return True
         r = p.value
         return z3.And(*[z3.Or(*[z3.And(V.Z(r.flat()[i]) == j, dist(i, j) <= tol, *[dist(i, j) <= dist(i, k) for k in range(D)]) for j in range(D)]) for i in range(N)])
-    t.prove_paths("result_is_nearest_design_within_tolerance", paths, goal)
+    t.prove_paths("result_is_nearest_design_within_tolerance", paths, goal, timeout_ms=90000)
 
 
 class DecAcq(RowwiseAcq):
@@ -238,8 +238,8 @@ class DecAcq(RowwiseAcq):
         return self.A2[e][j]
 
 
-def _opt_decoupled(n, m, q, d=2):
-    @task("C07", "optimize_decoupled_acqf_discrete[choices=%d,objectives=%d,q=%d]" % (n, m, q))
+def _opt_decoupled(n, m, q, d=2, tier="quick"):
+    @task("C07", "optimize_decoupled_acqf_discrete[choices=%d,objectives=%d,q=%d]" % (n, m, q), tier=tier)
     def _t(t):
         t.mode = "n=%d candidates, m=%d objectives, batch q=%d; acquisition table symbolic" % (n, m, q)
         ch = t.inp("choices", InArr("ch", (n, d)))
@@ -274,7 +274,7 @@ def _opt_decoupled(n, m, q, d=2):
             larger = sum((z3.If(A[e][j] > smallest, 1, 0) for (e, j) in allpairs), z3.IntVal(0))
             cs.append(larger <= qq - 1)
             return z3.And(*cs)
-        t.prove_each_path("returned_pairs_are_the_q_largest_cells_of_the_table_sorted_non_increasing", paths, goal, chunk=8)
+        t.prove_each_path("returned_pairs_are_the_q_largest_cells_of_the_table_sorted_non_increasing", paths, goal, chunk=1, timeout_ms=60000)
 
         def distinct_pairs(p):
             rows, vals, eidx = p.value
@@ -294,5 +294,6 @@ def _opt_decoupled(n, m, q, d=2):
 
 
 _opt_decoupled(2, 2, 1)
-_opt_decoupled(2, 3, 2)
+_opt_decoupled(2, 3, 2, tier="thorough")
+_opt_decoupled(2, 3, 1)
 _opt_decoupled(3, 2, 2)
